@@ -715,16 +715,44 @@ def main(prop, argv):
 
         total, stats, hashes, mismatches, errors = run_parallel(prop, all_cases(), chunk_size=getattr(prop, "chunk_size", 400))
         samples = prop.samples(tier, seed) if hasattr(prop, "samples") else []
+        # further correspondence streams of the same property on other extracted components
+        # (prop.also = [PropBase objects with their own component / driver / generators])
+        for sub in getattr(prop, "also", []):
+            with build_lock():
+                ok_sub, dlog = build_driver(sub.component, sub.extract_file)
+            br.log += dlog
+            if not ok_sub:
+                br.ok_driver = False
+                br.failed_theorem = br.failed_theorem or f"extraction/driver build of component {sub.component}"
+                continue
+
+            def sub_cases(sub=sub):
+                for c in (sub.corpus_cases() if hasattr(sub, "corpus_cases") else []):
+                    yield c
+                for c in sub.cases(tier, seed):
+                    yield c
+
+            t2, s2, h2, m2, e2 = run_parallel(sub, sub_cases(), chunk_size=getattr(sub, "chunk_size", 400))
+            total += t2
+            stats.update({f"{sub.component}:{k}": v for k, v in s2.items()})
+            hashes |= h2
+            for m in m2:
+                m["_sub"] = sub.component
+            mismatches += m2
+            errors += e2
     if errors:
         print("HARNESS-ERROR:\n" + errors[0], file=sys.stderr)
     known = [k for k in load_known_findings() if k[0] == prop.id]
     seen_known = set()
+    top = prop
+    subs = {sub.component: sub for sub in getattr(top, "also", [])}
     for m in mismatches:
+        prop = subs.get(m.get("_sub"), top)
         case = prop.shrink(m["case"])
         if case is not m["case"]:
             drv = Driver(prop.component)
             replies, _ = drv.ask(prop.requests(case), prop.prelude())
-            m = {"case": case, "impl": prop.impl(case), "model": prop.model_obs(case, replies)}
+            m = {"case": case, "impl": prop.impl(case), "model": prop.model_obs(case, replies), "_sub": m.get("_sub")}
         matched = None
         for (_, pred, text) in known:
             fn = prop.known_predicates.get(pred)
@@ -744,11 +772,14 @@ def main(prop, argv):
             "implementation": m["impl"],
             "model": m["model"],
             "spec": prop.spec_obs(m["case"]),
-            "how_to_replay": f"./check {prop.id} --replay <this file>",
+            "how_to_replay": f"./check {top.id} --replay <this file>",
         }
+        if m.get("_sub"):
+            payload["component"] = m["_sub"]
         violations.append((payload, ""))
         if len(violations) >= 5:
             break
+    prop = top
     if not br.ok_props or br.forbidden or not br.ok_driver or errors:
         # an obligation no longer checks; a failing input was searched for above
         if not violations:
@@ -782,7 +813,11 @@ def replay(prop, path):
         print("now:", "checks" if br.ok_props and br.ok_driver else "still failing")
         print(br.log[-2000:])
         return 0 if br.ok_props and br.ok_driver else 1
-    br = build(prop.id, prop.component, prop.extract_file, need_props=False)
+    top = prop
+    for sub in getattr(top, "also", []):
+        if payload.get("component") == sub.component:
+            prop = sub
+    br = build(top.id, prop.component, prop.extract_file, need_props=False)
     case = payload["case"]
     drv = Driver(prop.component)
     replies, _ = drv.ask(prop.requests(case), prop.prelude())
@@ -793,7 +828,7 @@ def replay(prop, path):
     print("model:         ", json.dumps(mo, default=str))
     print("spec oracle:   ", json.dumps(prop.spec_obs(case), default=str))
     if io != mo:
-        print(f"VIOLATION property={prop.id} replay={path}")
+        print(f"VIOLATION property={top.id} replay={path}")
         return 1
     print("agree")
     return 0
